@@ -1,9 +1,189 @@
 import PestModel.Model.RefTrace
-/-! # C08 — placeholder until the theorems land. -/
+import PestModel.Thm.C01
+import PestModel.Lemmas.Track
+import PestModel.Lemmas.TrackMain
+/-!
+# C08 — failure reports point at the furthest failure with sound expectations
+
+`RefTrace` instruments the reference semantics with the tree of rule calls; `specReport` is the
+property's statement as a function of that tree. The first group of theorems says that `specReport`
+has the properties the statement asks for (furthest position; every listed rule really was tried there
+and failed, resp. matched under negation). `track_eq_spec` says that the VM model — `ParserState::track`,
+`rule`, the look-ahead flags, the `sort`/`dedup` epilogue — reports exactly `specReport`.
+-/
 namespace PestModel.C08
-open PestModel.RefTrace
+open PestModel.RefTrace PestModel.G PestModel.Ref PestModel.PS
+open PestModel.LineCol (Str)
 
 theorem smoke : specReport [.node 1 0 false false true [.node 2 0 false false true [], .node 3 0 false false true []]]
     = (0, [1], []) := by decide
+
+/-- all calls of a forest of call trees (pre-order). -/
+def allCalls : List Call → List Call
+  | [] => []
+  | .node r p m n rep kids :: cs => .node r p m n rep kids :: (allCalls kids ++ allCalls cs)
+termination_by cs => sizeOf cs
+decreasing_by all_goals simp_wf <;> omega
+
+
+/-! ### helper lemmas on `allCalls` -/
+
+theorem allCalls_nil : allCalls [] = [] := by rw [allCalls]
+
+theorem allCalls_cons (r p : Nat) (m n rep : Bool) (kids cs : List Call) :
+    allCalls (.node r p m n rep kids :: cs) = .node r p m n rep kids :: (allCalls kids ++ allCalls cs) := by
+  rw [allCalls]
+
+/-- start position of a call. -/
+def callPos : Call → Nat
+  | .node _ pos _ _ _ _ => pos
+
+theorem callPos_eq (c : Call) : (match c with | .node _ pos _ _ _ _ => pos) = callPos c := by
+  cases c; rfl
+
+theorem furthest_ge : ∀ (calls : List Call) (c : Call), c ∈ allCalls calls → isAttempt c = true →
+    callPos c ≤ furthestList calls := by
+  refine PestModel.Track.forest_ind ?_ ?_
+  · intro c hc; rw [allCalls_nil] at hc; cases hc
+  · intro r p m n rep kids cs ihk ihc c hc ha
+    rw [allCalls_cons] at hc
+    rw [PestModel.Track.furthestList_cons, PestModel.Track.furthest_node]
+    simp only [List.mem_cons, List.mem_append] at hc
+    rcases hc with rfl | hc | hc
+    · rw [if_pos ha]; simp only [callPos]; omega
+    · have := ihk c hc ha; omega
+    · have := ihc c hc ha; omega
+
+theorem furthest_attained : ∀ (calls : List Call), furthestList calls = 0 ∨
+    ∃ c ∈ allCalls calls, isAttempt c = true ∧ callPos c = furthestList calls := by
+  refine PestModel.Track.forest_ind ?_ ?_
+  · left; exact PestModel.Track.furthestList_nil
+  · intro r p m n rep kids cs ihk ihc
+    rw [PestModel.Track.furthestList_cons, PestModel.Track.furthest_node, allCalls_cons]
+    by_cases h0 : max (max (if isAttempt (.node r p m n rep kids) = true then p else 0) (furthestList kids))
+        (furthestList cs) = 0
+    · left; exact h0
+    · right
+      by_cases h1 : furthestList cs = max (max (if isAttempt (.node r p m n rep kids) = true then p else 0)
+          (furthestList kids)) (furthestList cs)
+      · rcases ihc with h | ⟨c, hc, ha, hp⟩
+        · omega
+        · exact ⟨c, by simp [hc], ha, by rw [hp]; exact h1⟩
+      · by_cases h2 : furthestList kids = max (max (if isAttempt (.node r p m n rep kids) = true then p else 0)
+            (furthestList kids)) (furthestList cs)
+        · rcases ihk with h | ⟨c, hc, ha, hp⟩
+          · omega
+          · exact ⟨c, by simp [hc], ha, by rw [hp]; exact h2⟩
+        · by_cases ha : isAttempt (.node r p m n rep kids) = true
+          · refine ⟨.node r p m n rep kids, by simp, ha, ?_⟩
+            rw [if_pos ha] at h1 h2 ⊢
+            simp only [callPos]; omega
+          · rw [if_neg ha] at h1 h2; omega
+
+theorem surviving_sound (P : Nat) : ∀ (calls : List Call) (r : Nat) (neg : Bool),
+    (r, neg) ∈ survivingList P calls → ∃ kids, Call.node r P neg neg true kids ∈ allCalls calls := by
+  refine PestModel.Track.forest_ind ?_ ?_
+  · intro r neg h; rw [PestModel.Track.survivingList_nil] at h; cases h
+  · intro r0 p m n rep kids cs ihk ihc r neg h
+    rw [PestModel.Track.survivingList_cons, PestModel.Track.surviving_node] at h
+    rw [allCalls_cons]
+    have inK : (r, neg) ∈ survivingList P kids → ∃ k, Call.node r P neg neg true k ∈
+        Call.node r0 p m n rep kids :: (allCalls kids ++ allCalls cs) := fun hk => by
+      obtain ⟨k, hk⟩ := ihk r neg hk
+      exact ⟨k, by simp [hk]⟩
+    rcases List.mem_append.1 h with h | h
+    · split at h
+      · rename_i hc
+        split at h
+        · exact inK h
+        · simp only [List.mem_singleton, Prod.mk.injEq] at h
+          obtain ⟨rfl, rfl⟩ := h
+          simp only [Bool.and_eq_true, beq_iff_eq] at hc
+          obtain ⟨ha, rfl⟩ := hc
+          refine ⟨kids, ?_⟩
+          have : m = neg ∧ rep = true := by
+            simp only [isAttempt, Bool.and_eq_true, Bool.or_eq_true, Bool.not_eq_true'] at ha
+            obtain ⟨h1, h2⟩ := ha
+            refine ⟨?_, h1⟩
+            rcases h2 with ⟨a, b⟩ | ⟨a, b⟩ <;> simp [a, b]
+          obtain ⟨rfl, rfl⟩ := this
+          simp
+      · exact inK h
+    · obtain ⟨k, hk⟩ := ihc r neg h
+      exact ⟨k, by simp [hk]⟩
+
+/-- **Furthest**: no reported attempt lies beyond the reported position … -/
+theorem spec_position_furthest (calls : List Call) (c : Call) (hc : c ∈ allCalls calls) (ha : isAttempt c = true) :
+    (match c with | .node _ pos _ _ _ _ => pos) ≤ (specReport calls).1 := by
+  have := furthest_ge calls c hc ha
+  cases c
+  exact this
+
+/-- … and the reported position is one where an attempt was made (if any attempt was made at all). -/
+theorem spec_position_attained (calls : List Call) (h : ∃ c ∈ allCalls calls, isAttempt c = true) :
+    ∃ c ∈ allCalls calls, isAttempt c = true ∧ (match c with | .node _ pos _ _ _ _ => pos) = (specReport calls).1 := by
+  show ∃ c ∈ allCalls calls, isAttempt c = true ∧ (match c with | .node _ pos _ _ _ _ => pos) = furthestList calls
+  rcases furthest_attained calls with h0 | ⟨c, hc, ha, hp⟩
+  · obtain ⟨c, hc, ha⟩ := h
+    refine ⟨c, hc, ha, ?_⟩
+    have := furthest_ge calls c hc ha
+    rw [callPos_eq]; omega
+  · exact ⟨c, hc, ha, by rw [callPos_eq]; exact hp⟩
+
+/-- **Sound expectations**: every expected rule was tried at the reported position and failed there
+outside negation; every unexpected rule matched there under negation. -/
+theorem spec_expected_sound (calls : List Call) (r : Nat) (hr : r ∈ (specReport calls).2.1) :
+    ∃ kids, Call.node r (specReport calls).1 false false true kids ∈ allCalls calls := by
+  simp only [specReport, List.mem_map, List.mem_filter] at hr
+  obtain ⟨⟨r', neg⟩, ⟨hm, hn⟩, rfl⟩ := hr
+  simp only [Bool.not_eq_true'] at hn
+  subst hn
+  exact surviving_sound _ calls r' false hm
+
+theorem spec_unexpected_sound (calls : List Call) (r : Nat) (hr : r ∈ (specReport calls).2.2) :
+    ∃ kids, Call.node r (specReport calls).1 true true true kids ∈ allCalls calls := by
+  simp only [specReport, List.mem_map, List.mem_filter] at hr
+  obtain ⟨⟨r', neg⟩, ⟨hm, hn⟩, rfl⟩ := hr
+  simp only at hn
+  subst hn
+  exact surviving_sound _ calls r' true hm
+
+/-- **The VM reports the specified triple** (full statement, under the side conditions of C01's refinement theorem). -/
+def TrackEqSpecStmt : Prop :=
+  ∀ (extras : Bool) (rs : List ORule) (_hopt : PestModel.C01.Optimized extras rs)
+    (_htag : PestModel.VmRef.TagRules extras rs) (_hsize : rs.length ≤ 333333333)
+    (uni : String → Option CharSet) (memchr detail : Bool) (fuel : Nat) (name : String) (input : Str) (st : PState),
+    PestModel.C01.vmParse rs uni memchr detail fuel name input = .err st →
+    ∃ f calls, traceMeaning (ofOptimizedRules rs) extras uni f name input = (.fail, calls) ∧
+      st.attemptPos = (specReport calls).1 ∧
+      sortDedup st.posAtt = sortDedup (specReport calls).2.1 ∧
+      sortDedup st.negAtt = sortDedup (specReport calls).2.2
+
+/-- the exact form: the VM's three bookkeeping fields ARE the specified triple (before `sort`/`dedup`),
+for the trace of the instrumented reference at some fuel. -/
+theorem track_eq_spec_exact (extras : Bool) (rs : List ORule) (hopt : PestModel.C01.Optimized extras rs)
+    (htag : PestModel.VmRef.TagRules extras rs) (hsize : rs.length ≤ 333333333)
+    (uni : String → Option CharSet) (memchr detail : Bool) (fuel : Nat) (name : String) (input : Str)
+    (st : PState) (h : PestModel.C01.vmParse rs uni memchr detail fuel name input = .err st) :
+    ∃ f calls, traceMeaning (ofOptimizedRules rs) extras uni f name input = (.fail, calls) ∧
+      (st.attemptPos, st.posAtt, st.negAtt) = specReport calls := by
+  have htx : ∀ r ∈ rs, PestModel.VmRef.tagsExtras extras r.expr := fun r hr =>
+    PestModel.VmRef.tagsExtras_of_tagOK (htag r hr .nonAtomic (.entry r.name))
+  have hgood := PestModel.VmRef.goodRules_of_optimized extras rs hopt htx
+  obtain ⟨f, calls, hc, ha⟩ := PestModel.Track.track_top { rules := rs, uni } extras memchr detail input
+    hsize hgood htag fuel name st h
+  refine ⟨f, calls, hc, ?_⟩
+  have := ha.trans (PestModel.Track.stepAtt_init calls)
+  exact this
+
+theorem track_eq_spec : TrackEqSpecStmt := by
+  intro extras rs hopt htag hsize uni memchr detail fuel name input st h
+  obtain ⟨f, calls, hc, ha⟩ := track_eq_spec_exact extras rs hopt htag hsize uni memchr detail fuel name
+    input st h
+  refine ⟨f, calls, hc, ?_⟩
+  have h1 : st.attemptPos = (specReport calls).1 := congrArg Prod.fst ha
+  have h2 : st.posAtt = (specReport calls).2.1 := congrArg (fun x => x.2.1) ha
+  have h3 : st.negAtt = (specReport calls).2.2 := congrArg (fun x => x.2.2) ha
+  exact ⟨h1, by rw [h2], by rw [h3]⟩
 
 end PestModel.C08
